@@ -71,8 +71,18 @@ Theorem C04_history_transparent : forall rt m h, memo_ok m -> run_hist rt m h = 
 Proof. intros rt m h Hm. exact (hist_transparent rt h m Hm). Qed.
 (* ... and the operations of a history are the routines of the model *)
 Theorem C04_history_ops : forall rt v, is_temporal v = true ->
-  unm_str rt v = Ok (hop_out rt HStr (isoformat rt v)) /\ unm_bytes rt v = Ok (hop_out rt HBytes (isoformat rt v)).
+  unm_str rt v = Ok (emit rt HStr v (isoformat rt v)) /\ unm_bytes rt v = Ok (emit rt HBytes v (isoformat rt v)).
 Proof. exact hop_is_routine. Qed.
+(* ... on the non-temporal scalars too (None, bool, int, float, Decimal, Fraction, UUID, path): C04_history_transparent
+   quantifies over every value, and for these [isoformat rt v] is [canon_text rt v] = str(v), written afresh on every call *)
+Theorem C04_history_scalar_ops : forall rt v, plain_scalar v = true ->
+  unm_str rt v = Ok (emit rt HStr v (isoformat rt v)) /\ unm_bytes rt v = Ok (emit rt HBytes v (isoformat rt v)).
+Proof. exact scalar_is_routine. Qed.
+(* Decimal('0.5') marshalled after the equal Fraction(1, 2), 1 after True: each gets its own wire form *)
+Example C04_history_scalar_example :
+  run_hist toy_rt [] [(HMarshal, VFrac "1/2"%string); (HMarshal, VDec "0.5"%string); (HBytes, VDec "0.5"%string); (HMarshal, VBool true); (HMarshal, VInt 1); (HStr, VInt 1)]
+  = [VText CStr "1/2"; VText CStr "0.5"; VText CBytes "0.5"; VBool true; VInt 1; VText CStr "1"].
+Proof. vm_compute. reflexivity. Qed.
 (* 2020-01-01T00:00-01:00 and 2020-01-02T00:00+23:00 are one instant (offsets 24 h apart); P8D twice hits the memo *)
 Example C04_history_example :
   memo_ok [] /\
@@ -180,6 +190,7 @@ Print Assumptions C04_refuted_negative.
 Print Assumptions C04_iso_cache_transparent.
 Print Assumptions C04_history_transparent.
 Print Assumptions C04_history_ops.
+Print Assumptions C04_history_scalar_ops.
 Print Assumptions C04_dur_roundtrip.
 Print Assumptions C04_text_int.
 Print Assumptions C04_text_float.
@@ -283,3 +294,4 @@ Print Assumptions C04_dur_roundtrip_on_toy.
 Print Assumptions C04_text_date_on_toy.
 Print Assumptions C04_text_enum_on_toy.
 Print Assumptions C04_history_example.
+Print Assumptions C04_history_scalar_example.
